@@ -1616,5 +1616,163 @@ theorem zipWith_toBools (h : Heap) (p q : PBA) (hp : WF h p) (hq : WF h q) (hs :
   · simp [c]
 
 
+
+theorem init_sized_spec (h : Heap) (n s : Nat) (hs : s < 8) :
+    ∃ p, init h (some (n : Int)) none (some (s : Int)) none =
+        .ok (h ++ (List.replicate ((n + s + 7) / 8) (0 : Byte)).toArray, p) ∧
+      WF (h ++ (List.replicate ((n + s + 7) / 8) (0 : Byte)).toArray) p ∧ p.own = true ∧ p.start = s ∧ p.n = n ∧
+      p.off = h.size ∧
+      toBools (h ++ (List.replicate ((n + s + 7) / 8) (0 : Byte)).toArray) p = List.replicate n false := by
+  have hlen : (((n : Int) + s) / 8 + if ((n : Int) + s) % 8 = 0 then 0 else 1).toNat = (n + s + 7) / 8 := by
+    split <;> omega
+  have hpos : ¬ (((n : Int) + s) / 8 + if ((n : Int) + s) % 8 = 0 then 0 else 1) < 0 := by
+    split <;> omega
+  refine ⟨⟨h.size, (n + s + 7) / 8, s, (n : Int) + s, true⟩, ?_, ?_, rfl, rfl, ?_, rfl, ?_⟩
+  · simp only [init, checkStart, bind, Except.bind, pure, Except.pure, Option.isSome_some, Option.isSome_none,
+      Bool.and_false, Bool.false_eq_true, if_false, Option.getD_some, beq_iff_eq, Int.toNat_natCast]
+    rw [if_neg (by simp; omega)]
+    have hneg : ¬ ((n : Int) < 0) := by omega
+    simp only [hneg, hpos, if_false, hlen, Array.replicate_eq_toArray_replicate]
+  · refine ⟨hs, ?_, ?_, ?_, ?_⟩ <;> simp <;> omega
+  · simp [PBA.n]
+  · rw [toBools_eq _ _ (by refine ⟨hs, ?_, ?_, ?_, ?_⟩ <;> simp <;> omega)]
+    have hn : (⟨h.size, (n + s + 7) / 8, s, (n : Int) + s, true⟩ : PBA).n = n := by simp [PBA.n]
+    rw [hn]
+    apply List.ext_getElem?
+    intro i
+    by_cases hi : i < n
+    · simp only [List.getElem?_map, List.getElem?_range hi, Option.map_some, List.getElem?_replicate, hi, if_true, PBA.A]
+      have e : 8 * h.size + s + i = 8 * (h.size + (s + i) / 8) + (s + i) % 8 := by omega
+      rw [e, hbit_append_new _ _ _ _ (Nat.mod_lt _ (by omega))]
+      simp [List.getD_eq_getElem?_getD, List.getElem?_replicate]
+      split <;> simp
+    · simp [hi]
+
+
+theorem release_size (h : Heap) (n : Nat) (hn : n ≤ h.size) : (release h n).size = n := by
+  simp [release]; omega
+
+theorem rdB_release (h : Heap) (n i : Nat) (hn : n ≤ h.size) :
+    rdB (release h n) i = if i < n then rdB h i else 0 := by
+  simp only [rdB, release, Array.getD_eq_getD_getElem?, Array.getElem?_extract]
+  by_cases c : i < n
+  · have : i < min n h.size := by omega
+    simp [c, this]
+  · have : ¬ i < min n h.size := by omega
+    simp [c, this]
+
+theorem hbit_oob (h : Heap) (k : Nat) (hk : 8 * h.size ≤ k) : hbit h k = false := by
+  have : h.size ≤ k / 8 := by omega
+  simp [hbit, rdB, this]
+
+/-- `p.fml` on a larger heap with the same bytes under `p` -/
+theorem combinePBA_alias_spec (h : Heap) (p q : PBA) (hp : WF h p) (hq : WF h q)
+    (hs : q.start = p.start) (he : q.stop = p.stop)
+    (bitF : Bool → Bool → Bool) (byteF : Byte → Byte → Byte)
+    (hbb : ∀ x y t, t < 8 → (byteF x y).getLsbD t = bitF (x.getLsbD t) (y.getLsbD t)) :
+    ∃ (d : List Byte) (qc : PBA) (f g : FML) (h2 : Heap), copy h q = .ok (h ++ d.toArray, qc) ∧
+      p.fml (h ++ d.toArray) false = .ok f ∧ qc.fml (h ++ d.toArray) false = .ok g ∧
+      combineParts (h ++ d.toArray) p f g (fun hc i => rdB hc (qc.off + i)) bitF byteF = .ok h2 ∧
+      Rewrites h (release h2 h.size) p (fun k x => bitF x (opnd h p q k)) := by
+  obtain ⟨d, ec, hdl, hd⟩ := copy_spec h q hq
+  have hq' := hq
+  have hp' := hp
+  obtain ⟨b1, b2, b3, b4, b5⟩ := hq
+  obtain ⟨a1, a2, a3, a4, a5⟩ := hp
+  have hwc : WF (h ++ d.toArray) ⟨h.size, q.len, q.start, q.stop, true⟩ := ⟨b1, b2, b3, b4, by simp [hdl]⟩
+  have hp1 : WF (h ++ d.toArray) p := hp'.append d
+  have hdis : Disjoint p ⟨h.size, q.len, q.start, q.stop, true⟩ := Or.inl (by simpa using a5)
+  obtain ⟨f, g, h2, hf, hg, e, R⟩ := combinePBA_spec (h ++ d.toArray) p _ hp1 hwc hs he hdis bitF byteF hbb
+  have hsz2 : h2.size = h.size + d.length := by rw [R.size]; simp
+  refine ⟨d, _, f, g, h2, ec, hf, hg, e, release_size _ _ (by omega), fun k => ?_⟩
+  have hn : q.n = p.n := by simp only [PBA.n, hs, he]
+  have hlen : q.len = p.len := by omega
+  have hkk := Nat.div_add_mod k 8
+  simp only [hbit, rdB_release _ _ _ (by omega : h.size ≤ h2.size)]
+  by_cases ck : k / 8 < h.size
+  · rw [if_pos ck]
+    have := R.bit k
+    simp only [hbit] at this
+    rw [this, rdB_append, if_pos ck]
+    by_cases cr : p.A ≤ k ∧ k < p.A + p.n
+    · rw [if_pos cr, if_pos cr]
+      congr 1
+      simp only [opnd, PBA.A] at cr ⊢
+      have e1 : k + 8 * h.size - 8 * p.off = 8 * (h.size + (k - 8 * p.off) / 8) + (k - 8 * p.off) % 8 := by omega
+      have hst := hq'.stop_eq
+      rw [e1, hbit_append_new _ _ _ _ (Nat.mod_lt _ (by omega)),
+        hd _ _ (by omega) (Nat.mod_lt _ (by omega))]
+      have e2 : 8 * (q.off + (k - 8 * p.off) / 8) + (k - 8 * p.off) % 8 = k + 8 * q.off - 8 * p.off := by omega
+      rw [e2]
+      have : q.start ≤ 8 * ((k - 8 * p.off) / 8) + (k - 8 * p.off) % 8 ∧
+          8 * ((k - 8 * p.off) / 8) + (k - 8 * p.off) % 8 < q.start + q.n := by omega
+      simp [this]
+    · rw [if_neg cr, if_neg cr]
+  · rw [if_neg ck]
+    have cr : ¬ (p.A ≤ k ∧ k < p.A + p.n) := by simp only [PBA.A, PBA.n]; omega
+    rw [if_neg cr]
+    have : h.size ≤ k / 8 := by omega
+    simp [rdB, this]
+
+theorem fml_congr (rd rd' : Nat → Byte) (n s : Nat) (e : Int) (m : Bool)
+    (h0 : rd 0 = rd' 0) (h1 : rd (n - 1) = rd' (n - 1)) : fml rd n s e m = fml rd' n s e m := by
+  unfold fml; rw [h0, h1]
+
+theorem PBA.fml_append (h : Heap) (d : List Byte) (p : PBA) (hwf : WF h p) (m : Bool) :
+    p.fml (h ++ d.toArray) m = p.fml h m := by
+  obtain ⟨a1, a2, a3, a4, a5⟩ := hwf
+  unfold PBA.fml
+  by_cases c : p.len = 0
+  · unfold Packed.fml; simp [c]
+  · apply fml_congr <;> simp only [rdB_append] <;> rw [if_pos (by omega)]
+
+theorem not_shares {p q : PBA} (hlen : q.len = p.len) (hns : sharesMemory p q = false) : Disjoint p q := by
+  unfold sharesMemory at hns
+  unfold Disjoint
+  simp only [Bool.and_eq_false_iff, decide_eq_false_iff_not] at hns
+  omega
+
+theorem opPBA_spec (h : Heap) (p q : PBA) (hp : WF h p) (hq : WF h q)
+    (hs : q.start = p.start) (he : q.stop = p.stop) (op : Op) :
+    ∃ h', opPBA h p q op = .ok h' ∧ Rewrites h h' p (fun k x => op.bool x (opnd h p q k)) := by
+  have hlen : q.len = p.len := by
+    obtain ⟨_, _, a3, a4, _⟩ := hp; obtain ⟨_, _, b3, b4, _⟩ := hq; omega
+  cases hsm : sharesMemory p q
+  · obtain ⟨h', e, R⟩ := opPBACore_spec h p q hp hq hs he (not_shares hlen hsm) op
+    exact ⟨h', by simp [opPBA, hsm, e], R⟩
+  · obtain ⟨h1, qc, f, g, h2, ec, hf, hg, e, R⟩ := combinePBA_alias_spec h p q hp hq hs he op.bool op.byte
+      (fun x y t ht => Op_byte_getLsbD' op x y t ht)
+    refine ⟨_, ?_, R⟩
+    simp [opPBA, hsm, ec, opPBACore, hf, hg, e, bind, Except.bind, pure, Except.pure]
+
+theorem iopPBA_spec (h : Heap) (p q : PBA) (hp : WF h p) (hq : WF h q)
+    (hs : q.start = p.start) (he : q.stop = p.stop) (op : Op) :
+    ∃ h', iopPBA h p q op = .ok h' ∧ Rewrites h h' p (fun k x => op.bool x (opnd h p q k)) := by
+  obtain ⟨h', e, R⟩ := opPBA_spec h p q hp hq hs he op
+  refine ⟨h', ?_, R⟩
+  have : q.n = p.n := by simp only [PBA.n, hs, he]
+  simp [iopPBA, hp.pyLen, hq.pyLen, this, hs, e, bind, Except.bind]
+
+theorem setSlicePBA_spec (h : Heap) (p : PBA) (lo hi : Option Int) (t q : PBA)
+    (ht : slice p lo hi = .ok t) (hwt : WF h t) (hq : WF h q)
+    (hs : q.start = t.start) (he : q.stop = t.stop) :
+    ∃ h', setSlicePBA h p lo hi q = .ok h' ∧ Rewrites h h' t (fun k _ => opnd h t q k) := by
+  by_cases hn : t.n = 0
+  · exact ⟨h, by simp [setSlicePBA, ht, hwt.pyLen, hn, bind, Except.bind, pure, Except.pure],
+      Rewrites.refl_empty h t _ hn⟩
+  · have hlen : q.len = t.len := by
+      obtain ⟨_, _, a3, a4, _⟩ := hwt; obtain ⟨_, _, b3, b4, _⟩ := hq; omega
+    cases hsm : sharesMemory t q
+    · obtain ⟨f, g, h', hf, hg, e, R⟩ := combinePBA_spec h t q hwt hq hs he (not_shares hlen hsm)
+        (fun _ o => o) (fun _ o => o) (fun _ _ _ _ => rfl)
+      refine ⟨h', ?_, R⟩
+      simp [setSlicePBA, ht, hwt.pyLen, hn, hf, hg, hs, he, hsm, bind, Except.bind]
+      exact e
+    · obtain ⟨d, qc, f, g, h2, ec, hf, hg, e, R⟩ := combinePBA_alias_spec h t q hwt hq hs he
+        (fun _ o => o) (fun _ o => o) (fun _ _ _ _ => rfl)
+      rw [PBA.fml_append h d t hwt] at hf
+      refine ⟨_, ?_, R⟩
+      simp [setSlicePBA, ht, hwt.pyLen, hn, hf, hg, hs, he, hsm, ec, e, bind, Except.bind, pure, Except.pure]
+
 end Packed
 end HS
